@@ -8,6 +8,8 @@ os.makedirs(dst, exist_ok=True)
 for f in os.listdir(src):
     if f.endswith(".log") or f.startswith("out_") or f.startswith("suite_"):
         continue
+    if os.path.isdir(os.path.join(src, f)):
+        continue
     shutil.copy(os.path.join(src, f), dst)
 notes = open(os.path.join(src, "notes.txt")).read() if os.path.exists(os.path.join(src, "notes.txt")) else ""
 meta = {"id": sid, "breaks_property": prop, "needs_to_manifest": needs,
